@@ -53,6 +53,9 @@ pub proof fn lemma_fold_max_is_the_maximum(init: int, told: Seq<int>)
 //@ ensures#applies_the_polled_height [C20]
 //    a successful poll leaves the height at least at what the node reported
       r is Ok ==> final(w).height >= final(w).last_polled
+//@ ensures#never_below_the_last_height_polled [C20]
+//    a failed poll changes neither the cell nor what counts as polled
+      old(w).height >= old(w).last_polled ==> final(w).height >= final(w).last_polled
 //@ end
 
 //@ fn block_watcher::BlockWatcher::new_block
@@ -62,6 +65,20 @@ pub proof fn lemma_fold_max_is_the_maximum(init: int, told: Seq<int>)
       old(w).height >= old(w).height_read
 //@ ensures#only_through_update_height [C20]
       final(w).height >= old(w).height && final(w).height >= final(w).height_read && final(w).height >= block.height as int
+//@ end
+
+//@ fn block_watcher::BlockWatcher::start
+//@ returns r
+//@ ghostparam Tracked(w): Tracked<&mut World>, Tracked(p): Tracked<&mut PollGhost>
+//@ implicit [C06,C20]
+//@ requires#start
+      old(w).height >= old(w).height_read && old(p).sleeps == old(p).polls
+//@ ensures#never_decreases [C20,C04]
+      final(w).height >= old(w).height
+//@ ensures#startup_query_is_applied_before_the_plugin_runs [C20,C04]
+//    the height reported by the startup getinfo is in the cell when start() returns Ok; a failed
+//    startup query makes start() fail (the plugin does not run on an unknown height)
+      r is Ok ==> final(w).height >= final(w).last_polled
 //@ end
 
 //@ fn block_watcher::BlockWatcher::new
@@ -87,9 +104,15 @@ pub proof fn lemma_fold_max_is_the_maximum(init: int, told: Seq<int>)
 //@ implicit [C06,C20]
 //@ requires#start
       old(w).height >= old(w).height_read && old(p).sleeps == old(p).polls
+//@ requires#startup_query_applied [C20]
+      old(w).height >= old(w).last_polled
 //@ ensures#never_decreases [C20,C04]
       final(w).height >= old(w).height
+//@ ensures#never_below_the_last_height_polled [C20]
+      final(w).height >= final(w).last_polled
 //@ loop 0
+//@ invariant#never_below_the_last_height_polled [C20]
+      w.height >= w.last_polled
 //@ invariant#height_only_grows [C20]
       w.height >= old(w).height && w.height >= w.height_read
 //@ invariant#every_wakeup_polled [C20]
